@@ -5,6 +5,7 @@
 -/
 import AITB.Props.C18b
 namespace AITB.Cassandra
+variable {fl : Flags}
 
 /-- value assigned to a cell by the last statement covering it, if any -/
 def specHit (stmts : List Stmt) (D1 D2 D3 : Nat) (d1 a d3 : Nat) : Option XRat :=
@@ -38,25 +39,25 @@ theorem specAt_append_one (stmts : List Stmt) (s : Stmt) (D1 D2 D3 d1 a d3 : Nat
     statement.  A line starting with `T` (or, for a POMDP, `O`) must be a well-formed T/O statement,
     a line starting with `R` a well-formed reward statement; every other line is ignored.
     The three statement lists are in file order. -/
-inductive FileDenotes (k : Kind) (p : Pre) : List Str → Nat → List Stmt → List Stmt → List Stmt → Prop
-  | nil {skip : Nat} : FileDenotes k p [] skip [] [] []
+inductive FileDenotes (fl : Flags) (k : Kind) (p : Pre) : List Str → Nat → List Stmt → List Stmt → List Stmt → Prop
+  | nil {skip : Nat} : FileDenotes fl k p [] skip [] [] []
   | skipped {l : Str} {rest : List Str} {skip : Nat} {sT sR sW : List Stmt} :
-      FileDenotes k p rest skip sT sR sW → FileDenotes k p (l :: rest) (skip + 1) sT sR sW
+      FileDenotes fl k p rest skip sT sR sW → FileDenotes fl k p (l :: rest) (skip + 1) sT sR sW
   | tline {l : Str} {rest : List Str} {s : Stmt} {n : Nat} {sT sR sW : List Stmt} :
       startsWith l ['T'] = true →
-      MatrixLine p.S p.A p.S p.amap p.smap p.smap l rest s n →
-      FileDenotes k p rest n sT sR sW → FileDenotes k p (l :: rest) 0 (s :: sT) sR sW
+      MatrixLine fl p.S p.A p.S p.amap p.smap p.smap l rest s n →
+      FileDenotes fl k p rest n sT sR sW → FileDenotes fl k p (l :: rest) 0 (s :: sT) sR sW
   | oline {l : Str} {rest : List Str} {s : Stmt} {n : Nat} {sT sR sW : List Stmt} :
       startsWith l ['T'] = false → k = .pomdp → startsWith l ['O'] = true →
-      MatrixLine p.S p.A p.O p.amap p.smap p.omap l rest s n →
-      FileDenotes k p rest n sT sR sW → FileDenotes k p (l :: rest) 0 sT sR (s :: sW)
+      MatrixLine fl p.S p.A p.O p.amap p.smap p.omap l rest s n →
+      FileDenotes fl k p rest n sT sR sW → FileDenotes fl k p (l :: rest) 0 sT sR (s :: sW)
   | rline {l : Str} {rest : List Str} {s : Stmt} {sT sR sW : List Stmt} :
       startsWith l ['T'] = false → (k == .pomdp && startsWith l ['O']) = false → startsWith l ['R'] = true →
-      RewardLine p.S p.A p.amap p.smap l s →
-      FileDenotes k p rest 0 sT sR sW → FileDenotes k p (l :: rest) 0 sT (s :: sR) sW
+      RewardLine fl p.S p.A p.amap p.smap l s →
+      FileDenotes fl k p rest 0 sT sR sW → FileDenotes fl k p (l :: rest) 0 sT (s :: sR) sW
   | other {l : Str} {rest : List Str} {sT sR sW : List Stmt} :
       startsWith l ['T'] = false → (k == .pomdp && startsWith l ['O']) = false → startsWith l ['R'] = false →
-      FileDenotes k p rest 0 sT sR sW → FileDenotes k p (l :: rest) 0 sT sR sW
+      FileDenotes fl k p rest 0 sT sR sW → FileDenotes fl k p (l :: rest) 0 sT sR sW
 
 /-- the tables of a state agree with "statements on top of an earlier state" -/
 def Extends (st' st : St) (p : Pre) (sT sR sW : List Stmt) : Prop :=
@@ -71,7 +72,7 @@ theorem or_assoc' (a b c : Option XRat) : (a.or b).or c = a.or (b.or c) := by
 /-- **refinement, main loop**: on a well-formed line list the loop succeeds (whatever the flags) and
     every table is the earlier table overridden by the statements in file order -/
 theorem run_refines (fl : Flags) {k : Kind} {p : Pre} {lines : List Str} {skip : Nat} {sT sR sW : List Stmt}
-    (h : FileDenotes k p lines skip sT sR sW) (st : St) :
+    (h : FileDenotes fl k p lines skip sT sR sW) (st : St) :
     ∃ st', run fl k p lines skip st = .ok st' ∧ Extends st' st p sT sR sW := by
   induction h generalizing st with
   | nil => exact ⟨st, rfl, fun d1 a d3 => by simp [specHit]⟩
@@ -121,7 +122,7 @@ theorem run_refines (fl : Flags) {k : Kind} {p : Pre} {lines : List Str} {skip :
     branch of the two-colon form to throw. -/
 theorem run_accepts_only_wellformed {fl : Flags} (hfl : fl.rowLenThrows = true) {k : Kind} {p : Pre}
     (lines : List Str) (skip : Nat) (st st' : St) (h : run fl k p lines skip st = .ok st') :
-    ∃ sT sR sW, FileDenotes k p lines skip sT sR sW := by
+    ∃ sT sR sW, FileDenotes fl k p lines skip sT sR sW := by
   induction lines generalizing skip st with
   | nil => exact ⟨[], [], [], .nil⟩
   | cons l rest ih =>
